@@ -73,4 +73,45 @@ theorem no_ub_recv (cfg : Cfg) (r : Recip) (ev : Ev) : (recv cfg r ev).2 ≠ .ub
   · rw [he]; intro h; cases h
   · exact h3
 
+
+/-- **Liveness: a genuine request inside the replay window is accepted.**  After any history of a fresh recipient
+context, a request that authenticates, whose Partial IV was never accepted, is below the sequence number limit and
+is less than `min window 64` below every accepted PIV (i.e. not older than the window), is accepted — provided the
+Appendix B.1.2 exchange is not pending (B.1.2 off, or something was accepted already) or the request carries the
+right Echo value. -/
+theorem fresh_in_window_accepted (cfg : Cfg) (evs : List Ev) (ev : Ev)
+    (ha : ev.authentic = true) (hp : ev.piv < SEQ_MAX)
+    (hn : ev.piv ∉ accepted cfg Recip.fresh evs)
+    (hw : ∀ q ∈ accepted cfg Recip.fresh evs, q < ev.piv + min cfg.window 64)
+    (hs : cfg.b12 = false ∨ accepted cfg Recip.fresh evs ≠ [] ∨ ev.echo = .good) :
+    (recv cfg (final cfg Recip.fresh evs) ev).2 = .acc := by
+  have g := (accepted_nodup_aux cfg evs Recip.fresh [] good_fresh).2.2
+  rw [List.append_nil] at g
+  obtain ⟨v', hv⟩ := vvalidate_live (cfg := cfg) g hp (by simpa using hn) (by simpa using hw)
+  rw [recv_snd]
+  apply vrecv_acc ha hv
+  rcases hs with hs | hs | hs
+  · left; simp [hs]
+  · left
+    cases hi : (final cfg Recip.fresh evs).view.init with
+    | false => simp
+    | true =>
+      have := g.fresh hi
+      simp at this
+      exact absurd this hs
+  · right; exact hs
+
+/-- **A sender context never protects two messages with the same Partial IV, also across restarts** that resume from
+the value last handed to the save callback: for every `ssn_freq` (also changed at a restart), every start value a
+save callback can have produced, and every sequence of protect / crash-and-restart operations (a crash may happen
+between any two operations, i.e. anywhere between two save-callback invocations), the Partial IVs put on the wire
+are strictly increasing.  (`ops.length < 2^63`: beyond that the `uint64_t` counter itself would wrap.) -/
+theorem piv_strictly_increasing (f start : Nat) (ops : List SOp) (hs : start ≤ SEQ_MAX + 2 ^ 32)
+    (hl : ops.length < 2 ^ 63) : (pivs (srun (SSys.start f start) ops)).Pairwise (· < ·) :=
+  (srun_increasing ops _ [] 0 (sgood_start f start hs) (by omega)).2
+
+theorem piv_never_reused (f start : Nat) (ops : List SOp) (hs : start ≤ SEQ_MAX + 2 ^ 32)
+    (hl : ops.length < 2 ^ 63) : ReplaySpec.senderOk (pivs (srun (SSys.start f start) ops)) :=
+  (piv_strictly_increasing f start ops hs hl).imp (fun h => Nat.ne_of_lt h)
+
 end Coap.C15
